@@ -10,6 +10,7 @@ import IwModel.Lemmas.Arr
 import IwModel.Lemmas.Ring
 import IwModel.Lemmas.RingRef
 import IwModel.Lemmas.Sort
+import IwModel.Lemmas.XStrMem
 /-!
 C18: containers behave as their plain reference models for every call sequence.
 
@@ -659,6 +660,212 @@ theorem xstr_refines_bytes (x : XStr) (h : x.data.length < x.asize) (op : XsOp) 
         have := grow_ge x.asize (x.data.length + b.length + 1)
         rw [e.1, e.2, if_pos (by omega)]; exact ⟨rfl, by simp; omega⟩
   | clear => exact ⟨rfl, by simp [xsStep, clear]; omega⟩
+
+/-! ### the statement-level model (`Model/XStrMem.lean`): buffer cells, `memmove`, terminator stores, `vsnprintf` -/
+
+/-- calls on the memory-level state; `printf out` / `iprintf pos out` are `iwxstr_printf` /
+`iwxstr_insert_printf` with a format that produces the bytes `out` -/
+inductive XmOp where
+  | cat (b : Bytes) | unshift (b : Bytes) | shift (n : Nat) | pop (n : Nat) | insert (pos : Nat) (b : Bytes) | clear
+  | printf (out : Bytes) | iprintf (pos : Nat) (out : Bytes)
+
+/-- the C functions, statement by statement; `none` = a memory access outside a buffer -/
+def xmStep (junk : Nat) (x : XMem) : XmOp → Option XMem
+  | .cat b => mcat junk x b b.length
+  | .unshift b => munshift junk x b b.length
+  | .shift n => mshift x n
+  | .pop n => mpop x n
+  | .insert p b => (minsert junk x p b b.length).map (·.1)
+  | .clear => mclear x
+  | .printf out => mprintf junk x out
+  | .iprintf p out => (minsertPrintf junk x p out).map (·.1)
+
+/-- the same calls on the abstract string (a print is the edit with the complete formatted output) -/
+def xmAbs : XmOp → XsOp
+  | .cat b => .cat b
+  | .unshift b => .unshift b
+  | .shift n => .shift n
+  | .pop n => .pop n
+  | .insert p b => .insert p b
+  | .clear => .clear
+  | .printf out => .cat out
+  | .iprintf p out => .insert p out
+
+theorem xabs_len (x : XMem) (inv : x.Inv) : x.abs.data.length = x.size := XMem.data_length x inv
+
+/-- **every `iwxstr` editing function, statement by statement, is memory safe and computes the abstract edit**:
+from a state with `size < asize` no `memcpy / memmove / ptr[i] = 0` leaves the heap buffer and no read leaves the
+source buffer; afterwards data, `asize` (growth: double or jump) and the terminator flag are those of the
+abstract model (and `size < asize` again).  Corner cases covered: counts larger than the size in `shift`/`pop`
+(clamped), `shift` of everything (no move), zero counts (nothing stored), `insert` at `pos = size` and beyond
+(error, nothing changed), empty insert, `unshift` into an empty string, the `size - pos + 1` move of `insert`
+that carries the byte after the data along (so a string left unterminated by `iwxstr_set_size` stays so), and
+both print functions for every formatted length. -/
+theorem xstr_mem_refines (junk : Nat) (x : XMem) (inv : x.Inv) (op : XmOp) :
+    ∃ x', xmStep junk x op = some x' ∧ x'.Inv ∧ x'.abs = xsStep x.abs (xmAbs op) := by
+  have hlen := xabs_len x inv
+  have key : ∀ (x' : XMem) (y : XStr), x'.data = y.data → x'.asize = y.asize → x'.term = y.term → y.ud = none →
+      x'.abs = y := by
+    intro x' y h1 h2 h3 h4
+    cases y; simp only [XMem.abs] at *; subst h1 h2 h3 h4; rfl
+  have hcat : ∀ (buf : Bytes) (n : Nat) (hn : n ≤ buf.length),
+      ∃ x', mcat junk x buf n = some x' ∧ x'.Inv ∧ x'.abs = cat x.abs (buf.take n) := by
+    intro buf n hn
+    obtain ⟨x', e, i', d, a, t⟩ := mcat_spec junk x inv buf n hn
+    refine ⟨x', e, i', key _ _ d ?_ t rfl⟩
+    rw [a]; show grow x.asize _ = grow x.asize (x.abs.data.length + (buf.take n).length + 1)
+    rw [hlen]; simp; rw [Nat.min_eq_left hn]
+  have hins : ∀ (p : Nat) (buf : Bytes) (n : Nat) (hn : n ≤ buf.length),
+      ∃ x', (minsert junk x p buf n).map (·.1) = some x' ∧ x'.Inv ∧ x'.abs = (XStr.insert x.abs p (buf.take n)).1 := by
+    intro p buf n hn
+    obtain ⟨x', ok, e, i', _, d, a, t⟩ := minsert_spec junk x inv p buf n hn
+    refine ⟨x', by rw [e]; rfl, i', ?_⟩
+    have hbl : (buf.take n).length = n := by simp; omega
+    unfold XStr.insert
+    rw [hlen]
+    by_cases hp : p > x.size
+    · rw [if_pos hp]
+      rw [if_neg (by omega)] at d a
+      exact key _ _ d a t rfl
+    · rw [if_neg hp]
+      rw [if_pos (by omega)] at d
+      by_cases hb : (buf.take n).isEmpty = true
+      · rw [if_pos hb]
+        have h0 : n = 0 := by
+          have : (buf.take n).length = 0 := by simpa using hb
+          omega
+        rw [if_neg (by omega)] at a
+        refine key _ _ ?_ a t rfl
+        rw [d, h0]; simp; rfl
+      · rw [if_neg hb]
+        have h0 : n ≠ 0 := by
+          intro h0; apply hb; rw [h0]; rfl
+        rw [if_pos ⟨by omega, h0⟩] at a
+        refine key _ _ d ?_ t rfl
+        rw [a, hbl]; rfl
+  cases op with
+  | cat b =>
+    obtain ⟨x', e, i', a⟩ := hcat b b.length (Nat.le_refl _)
+    exact ⟨x', e, i', by rw [a, List.take_length]; rfl⟩
+  | unshift b =>
+    obtain ⟨x', e, i', d, a, t⟩ := munshift_spec junk x inv b b.length (Nat.le_refl _)
+    refine ⟨x', e, i', key _ _ (by rw [d, List.take_length]; rfl) ?_ t rfl⟩
+    rw [a]; show grow x.asize _ = grow x.asize (x.abs.data.length + b.length + 1)
+    rw [hlen]
+  | shift n =>
+    obtain ⟨x', e, i', d, a, t⟩ := mshift_spec x inv n
+    refine ⟨x', e, i', ?_⟩
+    show x'.abs = shift x.abs n
+    unfold shift
+    by_cases h0 : n = 0
+    · rw [if_pos h0]; rw [if_pos h0] at t
+      exact key _ _ (by rw [d, h0]; simp; rfl) a t rfl
+    · rw [if_neg h0]; rw [if_neg h0] at t
+      exact key _ _ d a t rfl
+  | pop n =>
+    obtain ⟨x', e, i', d, a, t⟩ := mpop_spec x inv n
+    refine ⟨x', e, i', ?_⟩
+    show x'.abs = pop x.abs n
+    unfold pop
+    by_cases h0 : n = 0
+    · rw [if_pos h0]; rw [if_pos h0] at t
+      exact key _ _ (by rw [d, h0]; simp; rfl) a t rfl
+    · rw [if_neg h0]; rw [if_neg h0] at t
+      exact key _ _ d a t rfl
+  | insert p b =>
+    obtain ⟨x', e, i', a⟩ := hins p b b.length (Nat.le_refl _)
+    exact ⟨x', e, i', by rw [a, List.take_length]; rfl⟩
+  | clear =>
+    obtain ⟨x', e, i', d, a, t⟩ := mclear_spec x inv
+    exact ⟨x', e, i', key _ _ d a t rfl⟩
+  | printf out =>
+    obtain ⟨s1, s2, s3, _⟩ := printfSource_spec junk out
+    obtain ⟨x', e, i', a⟩ := hcat (printfSource junk out).1 (printfSource junk out).2 (by rw [s1]; exact s2)
+    refine ⟨x', e, i', ?_⟩
+    rw [a, s1, s3]; rfl
+  | iprintf p out =>
+    obtain ⟨s1, s2, s3, _⟩ := printfSource_spec junk out
+    obtain ⟨x', e, i', a⟩ := hins p (printfSource junk out).1 (printfSource junk out).2 (by rw [s1]; exact s2)
+    refine ⟨x', e, i', ?_⟩
+    rw [a, s1, s3]; rfl
+
+def xmRun (junk : Nat) : List XmOp → XMem → Option XMem
+  | [], x => some x
+  | op :: ops, x => (xmStep junk x op).bind (xmRun junk ops)
+
+/-- **`iwxstr` = byte list for every call sequence from `iwxstr_create`**, down to buffer cells: no step
+faults, and the final contents are the reference edits applied in order -/
+theorem xstr_mem_run (junk siz : Nat) (ops : List XmOp) :
+    ∃ x0 x, mcreate junk siz = some x0 ∧ xmRun junk ops x0 = some x ∧ x.Inv ∧
+      x.data = ops.foldl (fun d op => xsRef (xmAbs op) d) [] := by
+  have hpos : 0 < (if siz = 0 then AUNIT else siz) := by
+    split
+    · decide
+    · omega
+  have e0 : mcreate junk siz = some { mem := (List.replicate (if siz = 0 then AUNIT else siz) junk).set 0 0, size := 0 } := by
+    unfold mcreate; rw [Arr.poke_some _ _ _ (by simpa using hpos)]; rfl
+  suffices H : ∀ (ops : List XmOp) (x0 : XMem), x0.Inv → ∃ x, xmRun junk ops x0 = some x ∧ x.Inv ∧
+      x.data = ops.foldl (fun d op => xsRef (xmAbs op) d) x0.data by
+    generalize hx0 : ({ mem := (List.replicate (if siz = 0 then AUNIT else siz) junk).set 0 0, size := 0 } : XMem) = x0 at e0
+    have i0 : x0.Inv := by subst hx0; unfold XMem.Inv; simpa using hpos
+    have d0 : x0.data = [] := by subst hx0; simp [XMem.data]
+    obtain ⟨x, h1, h2, h3⟩ := H ops x0 i0
+    exact ⟨x0, x, e0, h1, h2, by rw [h3, d0]⟩
+  intro ops
+  induction ops with
+  | nil => intro x0 i0; exact ⟨x0, rfl, i0, rfl⟩
+  | cons op ops ih =>
+    intro x0 i0
+    obtain ⟨x1, e1, i1, a1⟩ := xstr_mem_refines junk x0 i0 op
+    obtain ⟨x, e2, i2, d2⟩ := ih x1 i1
+    refine ⟨x, by simp [xmRun, e1, e2], i2, ?_⟩
+    rw [d2]
+    have : x1.data = xsRef (xmAbs op) x0.data := by
+      have h := (xstr_refines_bytes x0.abs (by show x0.data.length < x0.asize; rw [XMem.data_length x0 i0]; exact i0) (xmAbs op)).1
+      rw [← a1] at h; exact h
+    rw [this]; rfl
+
+/-- **`iwxstr_printf` / `iwxstr_insert_printf` at the 1024-byte stack buffer**: for a format producing `out`,
+the string gains exactly `out` (all of it, nothing else, NUL after it) whatever `out.length` is; the stack
+buffer is the source exactly when `out.length ≤ 1023`, otherwise a heap buffer of `out.length + 1` bytes;
+in particular for the three boundary lengths the source buffers have 1024, 1025 and 1026 cells -/
+theorem xstr_printf_exact (junk : Nat) (x : XMem) (inv : x.Inv) (out : Bytes) :
+    (∃ x', mprintf junk x out = some x' ∧ x'.Inv ∧ x'.data = x.data ++ out ∧ x'.size = x.size + out.length ∧
+        x'.term = true) ∧
+    (∀ pos, pos ≤ x.size → ∃ x', minsertPrintf junk x pos out = some (x', true) ∧ x'.Inv ∧
+        x'.data = x.data.take pos ++ out ++ x.data.drop pos ∧ x'.term = x.term) ∧
+    ((printfSource junk out).1.length = (if out.length < 1024 then 1024 else out.length + 1)) ∧
+    (out.length = 1023 → (printfSource junk out).1.length = 1024) ∧
+    (out.length = 1024 → (printfSource junk out).1.length = 1025) ∧
+    (out.length = 1025 → (printfSource junk out).1.length = 1026) := by
+  obtain ⟨s1, s2, s3, s4⟩ := printfSource_spec junk out
+  have hsrc : (printfSource junk out).1.length = (if out.length < 1024 then 1024 else out.length + 1) := by
+    split
+    · rename_i h; exact s4.mpr h
+    · rename_i h
+      unfold printfSource
+      have a := vsnprintf_spec junk PRINTF_BUF out (by decide)
+      have b := vsnprintf_spec junk (out.length + 1) out (by omega)
+      simp only [a.1]
+      rw [if_pos (show out.length ≥ PRINTF_BUF by show out.length ≥ 1024; omega)]
+      exact b.2.1
+  refine ⟨?_, ?_, hsrc, fun h => by rw [hsrc, h]; rfl, fun h => by rw [hsrc, h]; rfl, fun h => by rw [hsrc, h]; rfl⟩
+  · obtain ⟨x', e, i', d, _, t⟩ := mcat_spec junk x inv (printfSource junk out).1 (printfSource junk out).2 (by rw [s1]; exact s2)
+    refine ⟨x', e, i', by rw [d, s1, s3], ?_, t⟩
+    have := XMem.data_length x' i'
+    rw [d, s1, s3, List.length_append, XMem.data_length x inv] at this
+    exact this.symm
+  · intro pos hp
+    obtain ⟨x', ok, e, i', hok, d, _, t⟩ := minsert_spec junk x inv pos (printfSource junk out).1 (printfSource junk out).2 (by rw [s1]; exact s2)
+    have : ok = true := by
+      cases ok with
+      | true => rfl
+      | false => have := hok.mp rfl; omega
+    subst this
+    refine ⟨x', e, i', ?_, t⟩
+    rw [d, if_pos hp, s1, s3]
+
+example : printfBytes (List.replicate 1024 65) = some (List.replicate 1024 65) := printfBytes_eq _
 
 end XSTR
 
